@@ -15,7 +15,7 @@ impl Prop for C13Prop {
         "C13"
     }
     fn rule(&self) -> &'static str {
-        "programs over scripted commands (straight-line, goto-label and goto-line loops incl. loops that never end by themselves, handled errors with on_error) in which the k-th command invocation raises the embedder's halt flag, for k drawn over every boundary of the run; the run must return Ok with exactly the invocations up to and including the k-th in the log and the variables as they were then. Observed: call log, final variables, Ok/Err. Also a stream with a second thread raising the flag at a random instant (only 'returns Ok promptly and nothing is logged after the harness observed the flag set' is checked there). Non-trivial = the flag is raised and at least one instruction would have followed; distinct = distinct request."
+        "three streams. (1) programs over scripted commands (straight-line, goto-label and goto-line loops incl. loops that never end by themselves, handled errors with on_error) in which the k-th command invocation raises the embedder's halt flag, for k drawn over every boundary of the run; the run must return Ok with exactly the invocations up to and including the k-th in the log and the variables as they were then. Observed: call log, final variables, Ok/Err. (2) c13s: structured SDK programs of C05's generator (if/elseif/else, while, for-in, functions, functions in condition position = nested evaluator) in which one `emit` is `emit __halt__`, which raises the flag from inside; compared with the halt-aware model (Sdk/FlowHalt.lean); relation: the run returns Ok and nothing is emitted after it. (3) c13t: four loop shapes that never end by themselves (goto, while over a value, while over a command condition, nested for-in over ranges) with a SECOND THREAD raising the flag after 0-3000 us; relation: returns Ok within the time limit and at most one `tick` observed the flag set. Non-trivial = the flag is raised and at least one instruction would have followed; distinct = distinct request."
     }
     fn budget(&self, tier: Tier) -> usize {
         match tier {
@@ -204,13 +204,18 @@ fn run_second_thread(shape: usize, delay_us: u64) -> String {
     let h2 = halt.clone();
     let raised_at = Arc::new(std::sync::Mutex::new(None));
     let r2 = raised_at.clone();
+    let done = Arc::new(AtomicBool::new(false));
+    let d2 = done.clone();
     let raiser = std::thread::spawn(move || {
         std::thread::sleep(std::time::Duration::from_micros(delay_us));
         // (noted BEFORE the store: the run may return the very moment the flag is up)
         *r2.lock().unwrap() = Some(std::time::Instant::now());
         h2.store(true, Ordering::SeqCst);
         // a changed implementation that resets the flag must still come back: raise it again and again
-        for _ in 0..400 {
+        for _ in 0..1000 {
+            if d2.load(Ordering::SeqCst) {
+                break;
+            }
             std::thread::sleep(std::time::Duration::from_millis(5));
             h2.store(true, Ordering::SeqCst);
         }
@@ -218,6 +223,7 @@ fn run_second_thread(shape: usize, delay_us: u64) -> String {
     let text = LOOPS[shape % LOOPS.len()];
     let res = duckscript::runner::run_script(text, ctx, Some(crate::sdkenv::quiet_env(Some(halt.clone()))));
     let returned = std::time::Instant::now();
+    done.store(true, Ordering::SeqCst);
     let raised = raised_at.lock().unwrap().clone();
     drop(raiser); // detached: it only touches its own Arc clones
     let late = match raised {
